@@ -50,7 +50,7 @@ struct ThreadOut {
     seen_bad: usize,
 }
 
-fn run_one(spec: &RunSpec, prefix: usize, noise: bool, progress: &AtomicU64) -> Value {
+fn run_one(spec: &RunSpec, prefix: usize, noise: bool, full: bool, progress: &AtomicU64) -> Value {
     let t0 = Instant::now();
     let w = gen_workload(spec);
     // --- sequential reference on the thread-safe build
@@ -63,9 +63,14 @@ fn run_one(spec: &RunSpec, prefix: usize, noise: bool, progress: &AtomicU64) -> 
         seq_digest.push(h);
         seq_answers.push(v);
         seq_bits.push(b);
+        progress.fetch_add(1, Ordering::Relaxed);
     }
     drop(seq_engine);
     let t_seq = t0.elapsed();
+    let seq_panics: Vec<Value> = seq_answers.iter().enumerate()
+        .flat_map(|(ti, v)| v.iter().enumerate().filter(|(_, a)| a.starts_with("PANIC")).take(1)
+            .map(move |(qi, a)| json!({"thread": ti, "index": qi, "where": "sequential (thread-safe build, one thread)", "message": a})).collect::<Vec<_>>())
+        .take(3).collect();
 
     // --- concurrent run on one shared engine
     let engine = Arc::new(build_engine(&w));
@@ -178,7 +183,8 @@ fn run_one(spec: &RunSpec, prefix: usize, noise: bool, progress: &AtomicU64) -> 
 
     let conc_digest: Vec<String> = outs.iter().map(|(_, o)| format!("{:016x}", o.digest)).collect();
     let mismatches: Vec<Value> = outs.iter().flat_map(|(_, o)| o.mismatches.clone()).collect();
-    let panics: Vec<Value> = outs.iter().flat_map(|(_, o)| o.panics.clone()).collect();
+    let mut panics: Vec<Value> = outs.iter().flat_map(|(_, o)| o.panics.clone()).collect();
+    panics.extend(seq_panics);
     let tickets: Vec<u32> = order.iter().map(|a| a.load(Ordering::SeqCst)).take_while(|x| *x != u32::MAX).collect();
     let mut res = json!({
         "seed": spec.seed, "mode": spec.mode.name(), "threads": spec.threads, "queries": spec.queries,
@@ -197,6 +203,18 @@ fn run_one(spec: &RunSpec, prefix: usize, noise: bool, progress: &AtomicU64) -> 
         "inrun_bad_seen": outs.iter().map(|(_, o)| o.seen_bad).sum::<usize>(),
         "seq_ms": t_seq.as_millis() as u64, "conc_ms": t_conc.as_millis() as u64,
     });
+    // exclusive phase: &mut self methods lock the same mutex (clear() after re-tagging)
+    let retag = match Arc::try_unwrap(engine) {
+        Ok(mut e) => catch_unwind(AssertUnwindSafe(|| retag_and_query(&mut e, &w))).map_err(panic_message),
+        Err(_) => Err("engine still shared after the scope ended".to_string()),
+    };
+    match retag {
+        Ok(h) => res["retag_digest"] = json!(format!("{:016x}", h)),
+        Err(m) => res["retag_error"] = json!(m),
+    }
+    if full {
+        res["seq_answers"] = json!(seq_answers);
+    }
     if spec.mode == Mode::Pure {
         // the bits of the first answers of every thread (enough for the ticket prefix) and the cache
         let keep = prefix.min(spec.queries);
@@ -246,29 +264,46 @@ fn main() {
                     last = now;
                     since = Instant::now();
                 } else if since.elapsed() > Duration::from_secs(stall_s) {
-                    eprintln!("C19-WATCHDOG: no progress for {} s in run #{} after {} queries: deadlock or livelock", stall_s, now.0, now.1);
+                    eprintln!("C19-WATCHDOG: no progress for {} s ({} runs started, {} queries answered): deadlock or livelock", stall_s, now.0, now.1);
                     std::process::exit(3);
                 }
             }
         });
     }
-    let mut results = vec![];
-    for (ri, r) in plan["runs"].as_array().expect("runs").iter().enumerate() {
-        let spec = RunSpec {
-            seed: r["seed"].as_u64().unwrap(),
-            mode: Mode::parse(r["mode"].as_str().unwrap_or("rich")),
-            threads: r["threads"].as_u64().unwrap() as usize,
-            queries: r["queries"].as_u64().unwrap() as usize,
-        };
-        let prefix = r["prefix"].as_u64().unwrap_or(0) as usize;
-        let noise = r["noise"].as_bool().unwrap_or(true);
-        let repeat = r["repeat"].as_u64().unwrap_or(1);
-        for _ in 0..repeat {
-            phase.store(ri as u64 + 1, Ordering::SeqCst);
-            let mut v = run_one(&spec, prefix, noise, &progress);
-            v["run"] = json!(ri);
-            results.push(v);
+    let runs: Vec<Value> = plan["runs"].as_array().expect("runs").clone();
+    let parallel = plan["parallel"].as_u64().unwrap_or(1).max(1) as usize;
+    let next = AtomicUsize::new(0);
+    let results_m: Mutex<Vec<(usize, u64, Value)>> = Mutex::new(vec![]);
+    std::thread::scope(|sc| {
+        for _ in 0..parallel.min(runs.len().max(1)) {
+            let (runs, next, results_m, progress, phase) = (&runs, &next, &results_m, &progress, &phase);
+            sc.spawn(move || loop {
+                let ri = next.fetch_add(1, Ordering::SeqCst);
+                if ri >= runs.len() {
+                    break;
+                }
+                let r = &runs[ri];
+                let spec = RunSpec {
+                    seed: r["seed"].as_u64().unwrap(),
+                    mode: Mode::parse(r["mode"].as_str().unwrap_or("rich")),
+                    threads: r["threads"].as_u64().unwrap() as usize,
+                    queries: r["queries"].as_u64().unwrap() as usize,
+                };
+                let prefix = r["prefix"].as_u64().unwrap_or(0) as usize;
+                let noise = r["noise"].as_bool().unwrap_or(true);
+                let full = r["full"].as_bool().unwrap_or(false);
+                let repeat = r["repeat"].as_u64().unwrap_or(1);
+                for k in 0..repeat {
+                    phase.fetch_add(1, Ordering::SeqCst);
+                    let mut v = run_one(&spec, prefix, noise, full, progress);
+                    v["run"] = json!(ri);
+                    results_m.lock().unwrap().push((ri, k, v));
+                }
+            });
         }
-    }
+    });
+    let mut results = results_m.into_inner().unwrap();
+    results.sort_by_key(|(a, b, _)| (*a, *b));
+    let results: Vec<Value> = results.into_iter().map(|(_, _, v)| v).collect();
     std::fs::write(&out, serde_json::to_string(&json!({"results": results})).unwrap()).expect("write results");
 }
